@@ -278,6 +278,9 @@ public:
 
     while (!logger_removal_complete.load())
     {
+#if defined(QUILL_VERIF)
+      verif::hit(verif::FE_REMOVE_WAIT, logger, 0);
+#endif
       // The caller thread keeps checking the flag until the logger is removed
       if (sleep_duration_ns > 0)
       {
